@@ -128,6 +128,9 @@ func (x *XRefParser) FindXRef() (int64, error) {
 
 	// Parse the offset after startxref
 	afterStartXRef := content[idx+len("startxref"):]
+	// Lines may end in LF, CR LF or a lone CR (ISO 32000-1 7.2.3)
+	afterStartXRef = strings.ReplaceAll(afterStartXRef, "\r\n", "\n")
+	afterStartXRef = strings.ReplaceAll(afterStartXRef, "\r", "\n")
 	lines := strings.Split(afterStartXRef, "\n")
 	if len(lines) < 2 {
 		return 0, fmt.Errorf("invalid startxref format")
@@ -178,6 +181,7 @@ func (x *XRefParser) ParseXRef(offset int64) (*XRefTable, error) {
 // streams start with an object definition like "5 0 obj".
 func (x *XRefParser) isXRefStream() (bool, error) {
 	scanner := bufio.NewScanner(x.reader)
+	scanner.Split(scanPDFLines)
 	if !scanner.Scan() {
 		return false, fmt.Errorf("failed to read first line")
 	}
@@ -203,10 +207,41 @@ func (x *XRefParser) isXRefStream() (bool, error) {
 	return false, fmt.Errorf("unrecognized xref format: %s", line)
 }
 
+// scanPDFLines is a bufio.SplitFunc like bufio.ScanLines that also ends a line
+// at a lone carriage return: PDF allows CR, LF and CR LF as end-of-line markers,
+// and cross-reference entries may be terminated by "SP CR".
+func scanPDFLines(data []byte, atEOF bool) (advance int, token []byte, err error) {
+	if atEOF && len(data) == 0 {
+		return 0, nil, nil
+	}
+	for i, c := range data {
+		switch c {
+		case '\n':
+			return i + 1, data[:i], nil
+		case '\r':
+			if i+1 < len(data) {
+				if data[i+1] == '\n' {
+					return i + 2, data[:i], nil
+				}
+				return i + 1, data[:i], nil
+			}
+			if atEOF {
+				return i + 1, data[:i], nil
+			}
+			return 0, nil, nil // need one more byte to tell CR from CR LF
+		}
+	}
+	if atEOF {
+		return len(data), data, nil
+	}
+	return 0, nil, nil
+}
+
 // parseTraditionalXRef parses a traditional xref table (PDF 1.0-1.4).
 // The format is: "xref\n<subsections>\ntrailer\n<dict>\nstartxref\n<offset>\n%%EOF"
 func (x *XRefParser) parseTraditionalXRef() (*XRefTable, error) {
 	scanner := bufio.NewScanner(x.reader)
+	scanner.Split(scanPDFLines)
 
 	// Read "xref" keyword
 	if !scanner.Scan() {
